@@ -252,3 +252,9 @@ End DedupFacts.
 (* the row with no values (what ExceptIter hashes at the end of its right input) has the key of the row ('') *)
 Lemma row_key_eof_refuted w : row_key w [] [] = row_key w [] [HStr []].
 Proof. reflexivity. Qed.
+
+(* the same collision with weight strings (GROUP BY passes a schema): the NUL rune has weight 0, i.e. four zero bytes *)
+Lemma row_key_separator_schema_refuted w :
+  w 0%N = 0%N ->
+  row_key w [CStr; CStr] [HStr [97;0]%N; HStr [98]%N] = row_key w [CStr; CStr] [HStr [97]%N; HStr [0;98]%N].
+Proof. intros H. cbn. rewrite H. reflexivity. Qed.
